@@ -63,7 +63,7 @@ def c19_streams(ctx):
 PLANS["C19"] = dict(
     translate=True,
     modules=["Wx.Pure.Signals", "Wx.Pure.SignalsThm"],
-    theorems=["Wp.display_parse", "Wp.posix_numbers", "Wp.spellings_agree", "Wp.only_stop_is_shadowed", "Wp.fromI32_fromNix",
+    theorems=["Wp.display_parse", "Wp.posix_numbers", "Wp.spellings_agree", "Wp.only_stop_is_shadowed", "Wp.fromI32_fromNix", "Wp.translator_complete",
               "Wp.exit_codes", "Wp.term_signals"],
     bins=[("lib", ["wxtables"])],
     streams=c19_streams,
@@ -575,13 +575,22 @@ def job_stream(pid, ctx, n_random=None):
         # C09 "the moments at which tickets resolve are those of the documented semantics": the model's raise moments are proved to be
         # the documented machine's (handle_refines / waitBranch_refines, third conjunct), so a ticket that resolves at a moment no
         # admissible model trace has (or never, although every model trace resolves it) resolves at an undocumented moment
-        def tks(t): return {e.split(":")[2]: int(e.split(":")[0]) for e in t.split("|") if e.split(":")[1:2] == ["tk"]}
+        # a moment = the instant AND the place among the process-visible effects of that instant (a ticket that resolves before the spawn hook
+        # and the respawn of its restart have run resolves earlier than documented, although the virtual clock shows the same millisecond:
+        # an async hook may take any amount of real time)
+        def tks(t):
+            out = {}; seen = 0
+            for e in t.split("|"):
+                f = e.split(":")
+                if f[1:2] == ["tk"]: out[f[2]] = (int(f[0]), seen)
+                elif len(f) > 1 and f[1] in ("hook", "spawn", "spawnfail", "signal", "kill", "reaped", "run", "errh"): seen += 1
+            return out
         if job_norm(ta) not in alts:
             it = tks(ta); ats = [tks(a) for a in alts]
             for u in sorted(set(it) | set().union(*[set(a) for a in ats]) if ats else set(it)):
                 want = {a.get(u) for a in ats}
                 if it.get(u) not in want:
-                    fmt = lambda x: "never" if x is None else f"at {x} ms"
+                    fmt = lambda x: "never" if x is None else f"at {x[0]} ms after {x[1]} process-visible effects (hook calls, spawns, signals, kills, reaps, run markers, error-handler calls) of the run"
                     s.oracle_failures.append((i, c, ta, f"[C09] ticket {u} resolves {fmt(it.get(u))}; the documented semantics resolve it {' or '.join(sorted(fmt(w) for w in want))}"))
         def kills(t): return {e.split(":")[2]: int(e.split(":")[0]) for e in t.split("|") if ":kill:" in e}
         ik = kills(ta)
